@@ -84,7 +84,7 @@ class C12(P.Property):
         knobs = dict(scheme=rng.choice(C12_SCHEMES), init_state=rng.choice([0, 0, 1, 1, 2]),
                      net=rng.choice([dict(lo=0.001, hi=0.05), dict(lo=0.001, hi=0.05, seg=3), dict(lo=0.0005, hi=0.004),
                                      dict(lo=0.01, hi=0.3, tail=0.1, seg=2),
-                                     dict(lo=0.0, hi=0.0)]),  # the last: no latency -- events tie, only the loop's FIFO order decides
+                                     dict(lo=0.0, hi=0.0), dict(lo=0.0, hi=0.0, quantum=0.001), dict(lo=0.0005, hi=0.004, quantum=0.002)]),  # no latency / busy loop -- events tie, only the loop's FIFO order decides
                      skew=rng.choice([1.0, 1.0, 0.5, 2.0]), bufsize=rng.choice([8192, 8192, 16]), gc_every=rng.choice([0, 0, 0, 1, 2]))
         if rng.random() < 0.1:
             # injected system-call failure: from this step on, the server's next read of the state file fails once (EMFILE)
